@@ -126,11 +126,15 @@ def rewrites(s, path, kind):
             if lt:
                 extra = {"precision": 4, "scale": 2} if lt == "decimal" else {}
                 with_node(dict(n, logicalType=lt, **extra), "logicalType")
+                if lt == "decimal":
+                    with_node(dict(n, logicalType=lt, precision=3, scale=3), "decimal-scale-equals-precision")
+                    with_node(dict(n, logicalType=lt, precision=1), "decimal-no-scale")
             with_node(dict(n, logicalType="made-up"), "unknown-logicalType")
             if set(n) == {"type"}:
                 with_node(t, "dict->name")
         if t == "fixed" and n["size"] >= 1:
             with_node(dict(n, logicalType="decimal", precision=2, scale=1), "fixed-decimal")
+            with_node(dict(n, logicalType="decimal", precision=2, scale=2), "fixed-decimal-scale-equals-precision")
         if t == "record":
             with_node(dict(n, type="error"), "record->error")
         elif t == "error":
@@ -224,6 +228,16 @@ def check_one(fa, res, original, variant, label, want, seen):
         res.add(Violation("c13.fixpoint", "not-a-fixed-point", f"canon(canon(S)) = {again!r} != canon(S) = {got!r}", info))
 
 
+BROKEN = [
+    # calls that fail part-way through: whatever they leave behind must not leak into the next call
+    {"type": "record", "name": "Brk", "fields": [{"name": "a", "type": "int"}, {"name": "e", "type": {"type": "enum", "name": "NoSyms"}}],
+     "__fastavro_parsed": True, "__named_schemas": {}},
+    {"type": "record", "name": "Brk2", "fields": [{"name": "a", "type": "int"}, {"name": "f", "type": {"type": "fixed", "name": "NoSize"}}],
+     "__fastavro_parsed": True, "__named_schemas": {}},
+    {"type": "record", "name": "Brk3", "fields": [{"name": "a", "type": "Undefined"}]},
+]
+
+
 def run_unit(i, tier):
     import fastavro as fa
     import fastavro.schema  # noqa
@@ -231,6 +245,11 @@ def run_unit(i, tier):
     res = UnitResult()
     raw = schema_list(tier)[i]
     seen = set()
+    for b in BROKEN:
+        try:
+            fa.schema.to_parsing_canonical_form(copy.deepcopy(b))
+        except Exception:
+            pass
     bases = [raw]
     for a, b in namespace_variants(raw):
         bases += [a, b]
